@@ -30,16 +30,16 @@ func (t *verifTx) CreateNode(*graph.Properties, ...graph.Kind) (*graph.Node, err
 	return nil, errors.New("read only")
 }
 func (t *verifTx) UpdateNode(*graph.Node) error { return errors.New("read only") }
-func (t *verifTx) Nodes() graph.NodeQuery        { return nil }
+func (t *verifTx) Nodes() graph.NodeQuery       { return nil }
 func (t *verifTx) CreateRelationshipByIDs(graph.ID, graph.ID, graph.Kind, *graph.Properties) (*graph.Relationship, error) {
 	return nil, errors.New("read only")
 }
 func (t *verifTx) UpdateRelationship(*graph.Relationship) error { return errors.New("read only") }
-func (t *verifTx) Relationships() graph.RelationshipQuery      { return &verifRelQuery{tx: t} }
-func (t *verifTx) Raw(string, map[string]any) graph.Result     { return nil }
-func (t *verifTx) Query(string, map[string]any) graph.Result   { return nil }
-func (t *verifTx) Commit() error                               { return nil }
-func (t *verifTx) GraphQueryMemoryLimit() size.Size            { return t.memLimit }
+func (t *verifTx) Relationships() graph.RelationshipQuery       { return &verifRelQuery{tx: t} }
+func (t *verifTx) Raw(string, map[string]any) graph.Result      { return nil }
+func (t *verifTx) Query(string, map[string]any) graph.Result    { return nil }
+func (t *verifTx) Commit() error                                { return nil }
+func (t *verifTx) GraphQueryMemoryLimit() size.Size             { return t.memLimit }
 
 type verifRelQuery struct {
 	tx       *verifTx
@@ -54,20 +54,22 @@ func (q *verifRelQuery) Filterf(p graph.CriteriaProvider) graph.RelationshipQuer
 	q.criteria = p
 	return q
 }
-func (q *verifRelQuery) Update(*graph.Properties) error                  { return errors.New("read only") }
-func (q *verifRelQuery) Delete() error                                   { return errors.New("read only") }
+func (q *verifRelQuery) Update(*graph.Properties) error                    { return errors.New("read only") }
+func (q *verifRelQuery) Delete() error                                     { return errors.New("read only") }
 func (q *verifRelQuery) OrderBy(...graph.Criteria) graph.RelationshipQuery { return q }
-func (q *verifRelQuery) Offset(int) graph.RelationshipQuery              { return q }
-func (q *verifRelQuery) Limit(int) graph.RelationshipQuery               { return q }
-func (q *verifRelQuery) Count() (int64, error)                           { return 0, nil }
-func (q *verifRelQuery) First() (*graph.Relationship, error)             { return nil, graph.ErrNoResultsFound }
+func (q *verifRelQuery) Offset(int) graph.RelationshipQuery                { return q }
+func (q *verifRelQuery) Limit(int) graph.RelationshipQuery                 { return q }
+func (q *verifRelQuery) Count() (int64, error)                             { return 0, nil }
+func (q *verifRelQuery) First() (*graph.Relationship, error)               { return nil, graph.ErrNoResultsFound }
 func (q *verifRelQuery) Query(func(graph.Result) error, ...graph.Criteria) error {
 	return errors.New("unsupported")
 }
 func (q *verifRelQuery) Fetch(func(graph.Cursor[*graph.Relationship]) error) error {
 	return errors.New("unsupported")
 }
-func (q *verifRelQuery) FetchIDs(func(graph.Cursor[graph.ID]) error) error { return errors.New("unsupported") }
+func (q *verifRelQuery) FetchIDs(func(graph.Cursor[graph.ID]) error) error {
+	return errors.New("unsupported")
+}
 func (q *verifRelQuery) FetchTriples(func(graph.Cursor[graph.RelationshipTripleResult]) error) error {
 	return errors.New("unsupported")
 }
